@@ -706,7 +706,7 @@ class Search:
                 self.ck.broken_obligation("harness:semcheck", r["detail"])
                 continue
             po["failed"] += 1
-            replay = dict(replay, result=str(q), **{k: v for k, v in r.items() if k != "kind"})
+            replay = dict(replay, result=common.safe_str(q), **{k: v for k, v in r.items() if k != "kind"})
             self.findings.append(Finding(op, r["kind"], site, r["detail"], replay))
         if depth > 1 and accepted:
             op, descr, q = rng.choice(accepted)
